@@ -4,7 +4,7 @@
    (eqb stored probe), hence for rsass's == whatever its defects; the places
    where == must be an equivalence say so as a hypothesis on the keys involved,
    which C13_pool_equiv discharges for the pool the correspondence runs on. *)
-From Coq Require Import String List NArith ZArith Bool.
+From Coq Require Import String List NArith ZArith Bool Permutation.
 From RV Require Import Base.Text Base.ListX Model.CssStr Model.ValueLite Model.OrderMap Spec.MapSpec Run.C13 Proofs.C13.
 Import ListNotations.
 Local Open Scope list_scope.
@@ -115,27 +115,54 @@ Theorem C13_refines_literal : forall (K V : Type) (eqb : K -> K -> bool) (l : li
 Proof. intros. now apply refines_literal. Qed.
 Print Assumptions C13_refines_literal.
 
-(* map equality.  Full statement: == on maps is the order-insensitive reference equality *)
-Definition C13_eq_statement : Prop :=
-  forall a b : vmap, veq (VMap a) (VMap b) = sp_eq veq veq a b.
+(* map.set with a key path never moves or renames a stored key *)
+Theorem C13_set_path_keys : forall ks m x m', set_inner m ks x = Some m' ->
+  match ks with
+  | [] => False
+  | k :: _ => keys m' = if has veq (keys m) k then keys m else keys m ++ [k]
+  end.
+Proof. exact set_path_keys. Qed.
+Print Assumptions C13_set_path_keys.
 
-(* what holds: rsass's map == implies equal size and inclusion of entries *)
-Theorem C13_eq_sound_partial : forall a b, veq (VMap a) (VMap b) = true ->
-  length a = length b /\ sp_sub veq veq a b = true.
-Proof. intros. now apply eq_sound. Qed.
-Print Assumptions C13_eq_sound_partial.
+(* map equality.  rsass's Map == Map on the model IS OrderMap equality with == on keys and values ... *)
+Theorem C13_map_eq_is_om_eq : forall a b, veq (VMap a) (VMap b) = om_eq veq veq a b.
+Proof. exact veq_map_om_eq. Qed.
+Print Assumptions C13_map_eq_is_om_eq.
 
-(* F20: (a: 1, b: 2) == (b: 2, a: 1) is false in rsass *)
-Theorem C13_refuted_eq_order : ~ C13_eq_statement.
-Proof. intros H. destruct refuted_eq_order as [A B]. rewrite <- (H w_a w_b) in A. congruence. Qed.
-Print Assumptions C13_refuted_eq_order.
+(* ... which, for every key and value equality, holds exactly when the maps have the same size and every
+   entry of the left map has an == key mapped to an == value in the right map ... *)
+Theorem C13_eq_spec : forall (K V : Type) (eqb : K -> K -> bool) (veqv : V -> V -> bool) (a b : list (K * V)),
+  NoDupKeys eqb b -> (forall k, In k (keys a) -> euclid_on eqb (keys b) k) ->
+  (om_eq eqb veqv a b = true <->
+   length a = length b /\
+   forall k v, In (k, v) a -> exists k' v', In (k', v') b /\ eqb k' k = true /\ veqv v' v = true).
+Proof. intros. now apply om_eq_spec. Qed.
+Print Assumptions C13_eq_spec.
 
-(* map.set with a key path moves the outer key last instead of updating in place *)
-Theorem C13_refuted_set_path_order :
-  exists m', set_inner w_m [kp 13; kp 16] (vp 2) = Some m' /\
-             bytes_eqb (inspect (VMap m')) (inspect (VMap (sp_set_path w_m [kp 13; kp 16] (vp 2)))) = false.
-Proof. exact refuted_set_path_order. Qed.
-Print Assumptions C13_refuted_set_path_order.
+(* ... and does not depend on the order of the entries of either operand *)
+Theorem C13_eq_order_left : forall (K V : Type) (eqb : K -> K -> bool) (veqv : V -> V -> bool) (a a' b : list (K * V)),
+  Permutation a a' -> om_eq eqb veqv a b = om_eq eqb veqv a' b.
+Proof. intros. now apply om_eq_perm_l. Qed.
+Print Assumptions C13_eq_order_left.
+
+Theorem C13_eq_order_right : forall (K V : Type) (eqb : K -> K -> bool) (veqv : V -> V -> bool) (a b b' : list (K * V)),
+  Permutation b b' -> NoDupKeys eqb b -> NoDupKeys eqb b' ->
+  (forall k, In k (keys a) -> euclid_on eqb (keys b) k) ->
+  om_eq eqb veqv a b = om_eq eqb veqv a b'.
+Proof. intros. now apply om_eq_perm_r. Qed.
+Print Assumptions C13_eq_order_right.
+
+(* for maps of any size over the pool keys, with rsass's own ==: reordering either operand changes nothing *)
+Theorem C13_pool_eq_order : forall a a' b b',
+  incl (keys a ++ keys b) key_pool -> Permutation a a' -> Permutation b b' ->
+  NoDupKeys veq b -> NoDupKeys veq b' ->
+  veq (VMap a) (VMap b) = veq (VMap a') (VMap b').
+Proof. exact pool_eq_order. Qed.
+Print Assumptions C13_pool_eq_order.
+
+(* the former F20 witness, with differently written keys: (a: 1, b: 2) == ("b": 2, "a": 1), both ways *)
+Example C13_eq_order_example : veq (VMap w_a) (VMap w_b) = true /\ veq (VMap w_b) (VMap w_a) = true.
+Proof. exact eq_order_example. Qed.
 
 (* the hypotheses are satisfiable: a two-entry pool map and a pool key *)
 Example C13_hyps_sat :
